@@ -490,6 +490,29 @@ fn p05(p: &mut ProbeReport, r: &mut Rng, budget: usize) {
         let mut swapped = w.clone(); swapped.swap(0, 1);
         let mut replaced = w.clone(); replaced[0] = *r.pick(&v.letters);
         let mut second = w.clone(); second[1] = *r.pick(&v.letters); second[0] = *r.pick(&v.letters);
+        // history variant "a query overflowed the candidate cap": limit 1 (cap 10), 14 records that share a whole word
+        // with the first query and the target, which shares only its first letter with it
+        {
+            let w1: String = std::iter::once(w[0]).chain((0..3).map(|_| *r.pick(&v.letters))).collect();
+            let mut recs: Vec<(usize, String, usize)> = (0..14).map(|i| (10 + i, format!("{} {}", w1, v.word(r)), 50 + i)).collect();
+            recs.push((1, format!("{} {}", ws, v.word(r)), 7));
+            let big = Scn { lang: code.to_string(), recs, limit: 1 };
+            if !big.recs.iter().any(|e| has_sentinel(&e.1)) {
+                let mut st = big.build();
+                let _ = search_results(&st, &w1);
+                let mut sw = w.clone(); sw.swap(0, 1);
+                let q: String = sw.iter().collect();
+                let tq = tokenize_query(&q, &lang);
+                if !tq.words.is_empty() {
+                    let qg = grams_of(&tq);
+                    p.eval(&format!("{}|nogram-cap|{}|{}", code, ws, q), true);
+                    for (id, title) in search_marked(&mut st, &q) {
+                        let related = big.recs.iter().filter(|e| e.0 == id).any(|e| !grams_of(&tokenize_record(&e.1, &lang)).is_disjoint(&qg));
+                        if !related { p.fail(format!("after a query that overflowed the candidate cap, hit {} {:?} shares no gram with query {:?}", id, title, q), big.case("c05-nogram-cap", vec![Op::Search(w1.clone()), Op::Markers(ML.to_string(), MR.to_string()), Op::Search(q.clone())])); break; }
+                    }
+                }
+            }
+        }
         for qv in [swapped, replaced, second] {
             let q: String = qv.iter().collect();
             let tq = tokenize_query(&q, &lang);
@@ -650,8 +673,53 @@ fn neighbour_locality(p: &mut ProbeReport, r: &mut Rng, rounds: usize) {
     }
 }
 
+/// one long-lived store driven through adds, limit changes and searches (empty and not): after every step the hits at
+/// the current limit must be the first `limit` entries of what the same store lists with an unlimited limit, and
+/// that list must hold every record that is a hit in a store of its own (distinct ratings, |store| <= 10*limit)
+fn lived_in_store(p: &mut ProbeReport, r: &mut Rng, rounds: usize) {
+    for it in 0..rounds {
+        let code = LANGS[it % LANGS.len()];
+        let v = vocab(code);
+        let mut used: Vec<usize> = vec![];
+        let mut fresh_rating = |r: &mut Rng| loop { let x = r.below(1000); if !used.contains(&x) { used.push(x); break x; } };
+        let mut recs: Vec<(usize, String, usize)> = (0..r.range(2, 6)).map(|i| (i + 1, v.title(r), fresh_rating(r))).collect();
+        let mut limit = *r.pick(&[2usize, 3, 5, 10]);
+        let mut st = Scn { lang: code.to_string(), recs: recs.clone(), limit }.build();
+        let mut ops: Vec<Op> = vec![Op::New, Op::Limit(limit)];
+        for (id, t, rt) in &recs { ops.push(Op::Add(*id, *rt, t.clone())); }
+        for step in 0..8 {
+            match r.below(4) {
+                0 => { let id = 100 + step; let t = v.title(r); let rt = if r.chance(1, 2) { fresh_rating(r) / 100 } else { fresh_rating(r) }; if recs.iter().any(|e| e.2 == rt) { continue; } add_to(&mut st, id, &t, rt); recs.push((id, t.clone(), rt)); ops.push(Op::Add(id, rt, t)); }
+                1 => { limit = *r.pick(&[2usize, 3, 10, 10, 12]); st.limit = limit; ops.push(Op::Limit(limit)); }
+                2 => { let _ = search_results(&st, ""); ops.push(Op::Search(String::new())); }
+                _ => { let t = r.pick(&recs).1.clone(); let q = query_for(&v, r, &t); let _ = search_results(&st, &q); ops.push(Op::Search(q)); }
+            }
+            let n = recs.len();
+            if n > 10 * limit || limit == 0 { continue; }
+            // the comparison itself searches (and so refreshes whatever the store caches): make it only now and then,
+            // so that most steps meet the state the earlier steps left behind
+            if step != 7 && !r.chance(1, 4) { continue; }
+            let qs = [String::new(), { let t = r.pick(&recs).1.clone(); query_for(&v, r, &t) }];
+            for q in qs.iter() {
+                let hits = search_results(&st, q);
+                st.limit = n + 5; let unl = search_results(&st, q); st.limit = limit;
+                p.eval(&format!("lived|{}|{}|{}|{}", code, it, step, q), !hits.is_empty());
+                let want: Vec<(usize, String)> = unl.iter().take(limit).cloned().collect();
+                let mut o = ops.clone(); o.push(Op::Search(q.clone()));
+                if hits != want { p.fail(format!("after these operations limit {} gives {:?}, which is not the first {} of the unlimited list {:?} (query {:?})", limit, ids(&hits), limit, ids(&unl), q), Case { name: "c06-lived".into(), lang: code.to_string(), stream: "probe", ops: o }); return; }
+                for rec in &recs {
+                    let alone = search_results(&Scn { lang: code.to_string(), recs: vec![rec.clone()], limit: 1 }.build(), q);
+                    if alone.len() == 1 && !unl.iter().any(|h| h.0 == rec.0) { p.fail(format!("record {} {:?} is a hit on its own for {:?} but is missing from the unlimited list {:?} of the lived-in store", rec.0, rec.1, q, ids(&unl)), Case { name: "c06-lived-complete".into(), lang: code.to_string(), stream: "probe", ops: o.clone() }); return; }
+                }
+                ops.push(Op::Search(q.clone())); ops.push(Op::Limit(n + 5)); ops.push(Op::Search(q.clone())); ops.push(Op::Limit(limit));
+            }
+        }
+    }
+}
+
 fn p06(p: &mut ProbeReport, r: &mut Rng, budget: usize) {
     compaction_stress(p, r, "C06", if budget > 5000 { 12 } else { 2 });
+    lived_in_store(p, r, if budget > 5000 { 8000 } else { 800 });
     neighbour_locality(p, r, if budget > 5000 { 6000 } else { 700 });
     let budget = budget + p.evaluations;
     let mut i = 0;
@@ -1160,11 +1228,23 @@ fn p12(p: &mut ProbeReport, r: &mut Rng, budget: usize) {
 // ---------------- C13: whole title / two words in either order ----------------
 fn p13(p: &mut ProbeReport, r: &mut Rng, budget: usize) {
     let mut i = 0;
+    let mut directed = 0usize;
     while p.evaluations < budget {
         let code = LANGS[i % LANGS.len()]; i += 1;
         let v = vocab(code);
         let lang = make_lang(code);
-        let scn = rand_scn(&v, r, 5, false, true);
+        let mut scn = rand_scn(&v, r, 5, false, true);
+        // every fourth store also holds a title "<function word> <long word> <short prefix of that word>" and one
+        // "<word> <function word>": greedy assignment of query words to title words meets the short-partial-match rule
+        if i % 4 == 0 && !v.func.is_empty() {
+            let w: String = loop { let w = v.word(r); if w.chars().count() >= 6 && w.chars().all(|c| c.is_alphabetic()) { break w; } directed += 1; if directed > 10_000 { break "cartoon".to_string(); } };
+            let k = r.range(1, (w.chars().count() - 1) / 2);
+            let pre: String = w.chars().take(k.max(1)).collect();
+            let n = scn.recs.len();
+            scn.recs.push((900 + i, format!("{} {} {}", r.pick(&v.func), w, pre), 7));
+            scn.recs.push((1900 + i, format!("{} {}", w, r.pick(&v.func)), 3));
+            scn.limit = scn.limit.max(n + 2);
+        }
         let st = scn.build();
         for (id, title, _) in &scn.recs {
             let t = tokenize_record(title, &lang);
@@ -1174,6 +1254,9 @@ fn p13(p: &mut ProbeReport, r: &mut Rng, budget: usize) {
                 let a: String = wchars(&t, 0).iter().collect(); let b: String = wchars(&t, t.words.len() - 1).iter().collect();
                 queries.push(("first-last", format!("{} {} ", a, b)));
                 queries.push(("last-first", format!("{} {} ", b, a)));
+                // the same two complete words with nothing typed after the second (it is then an unfinished query word)
+                queries.push(("first-last-open", format!("{} {}", a, b)));
+                queries.push(("last-first-open", format!("{} {}", b, a)));
             }
             for (kind, q) in queries {
                 p.eval(&format!("{}|{}|{}", code, kind, q), true);
